@@ -73,7 +73,7 @@ def deep_value(n: int, kind: str, leaf: Any) -> Any:
 
 
 def expand_deep(v: Any) -> Any:
-    if isinstance(v, dict) and set(v) == {"$deep"}:
+    if isinstance(v, dict) and set(v) == {"$deep"} and isinstance(v["$deep"], list) and len(v["$deep"]) == 3 and type(v["$deep"][0]) is int and v["$deep"][1] in ("list", "dict", "alt"):
         return deep_value(*v["$deep"])
     return v
 
